@@ -389,11 +389,27 @@ pub fn run_server_case(prop: &'static str, case: &ServerCase) -> Verdict {
                 Err(e) => viol("request-before-drop-not-delivered", format!("{:?}", e.kind())),
             }
             cl.close_write();
+            cl.wait_output(|_, closed| closed);
         } else {
             drop(server);
             ph.store(33, Ordering::SeqCst);
             if listener.connect().is_ok() {
                 viol("accepting-after-drop", "connect succeeded after the server had been dropped".into());
+            }
+        }
+        if prop == "C20" {
+            // every connection has ended by now (the one held across the drop included): once the
+            // idle period has passed no thread of the dropped server is left
+            ph.store(34, Ordering::SeqCst);
+            let mut live = rt::probe::live_lib_threads();
+            let mut polls = 0;
+            while live > 0 && polls < 30 {
+                rt::thread::sleep(Duration::from_millis(500));
+                live = rt::probe::live_lib_threads();
+                polls += 1;
+            }
+            if live > 0 {
+                viol("threads-left-after-drop", format!("{} library threads are still alive 15 s (virtual) after the server was dropped and its last connection ended (drop mode {})", live, c.drop_mode));
             }
         }
         {
